@@ -275,12 +275,64 @@ func passedBefore(fn *ssa.Function, at ssa.Instruction, phi func(ssa.Instruction
 // returnsOf lists the Return instructions of fn.
 func returnsOf(fn *ssa.Function) []*ssa.Return {
 	var out []*ssa.Return
+	skipRecover := fn.Recover != nil && !mayRecover(fn)
 	eachInstr(fn, func(i ssa.Instruction) {
 		if r, ok := i.(*ssa.Return); ok {
+			if skipRecover && r.Block() == fn.Recover {
+				return // the return go/ssa synthesises for "a deferred call recovered": nothing deferred here can recover
+			}
 			out = append(out, r)
 		}
 	})
 	return out
+}
+
+// mayRecover: some function deferred by fn (a closure or a static callee with a body) contains a call of recover().
+func mayRecover(fn *ssa.Function) bool {
+	found := false
+	hasRecover := func(f *ssa.Function) bool {
+		if f == nil || f.Blocks == nil {
+			return f != nil && f.Blocks == nil && strings.HasPrefix(pkgPathOf(f), Mod) // unknown module body: assume it may
+		}
+		r := false
+		eachInstr(f, func(i ssa.Instruction) {
+			if c := callCommon(i); c != nil {
+				if bi, ok := c.Value.(*ssa.Builtin); ok && bi.Name() == "recover" {
+					r = true
+				}
+			}
+		})
+		return r
+	}
+	eachInstr(fn, func(i ssa.Instruction) {
+		d, ok := i.(*ssa.Defer)
+		if !ok {
+			return
+		}
+		switch v := d.Call.Value.(type) {
+		case *ssa.MakeClosure:
+			if cf, ok := v.Fn.(*ssa.Function); ok && hasRecover(cf) {
+				found = true
+			}
+		case *ssa.Function:
+			if hasRecover(v) {
+				found = true
+			}
+		default:
+			if d.Call.IsInvoke() {
+				found = true
+			} else if _, isBuiltin := v.(*ssa.Builtin); !isBuiltin {
+				if sc := staticCallee(&d.Call); sc != nil {
+					if hasRecover(sc) {
+						found = true
+					}
+				} else {
+					found = true // a function value of unknown origin
+				}
+			}
+		}
+	})
+	return found
 }
 
 // ---------- guards ----------
@@ -2116,6 +2168,9 @@ func checkNoMutableState(p *Prog, r *Report, rule, what string, roots []*ssa.Fun
 				if !mut || relPkgOfGlobal(g) == "internal/logger" {
 					continue
 				}
+				if isPureMemo(p, g) {
+					continue // a memo of a function of its key alone: what it answers does not depend on what was asked before
+				}
 				key := f.String() + "|" + g.Name()
 				if seen[key] {
 					continue
@@ -2140,3 +2195,70 @@ func relPkgOfGlobal(g *ssa.Global) string {
 }
 
 func lastInstr(b *ssa.BasicBlock) ssa.Instruction { return b.Instrs[len(b.Instrs)-1] }
+
+
+// isPureMemo: g is a package-level sync.Map used only inside one single-parameter function K ↦ …, always under the key K
+// itself, and filled only with the result of a module function applied to K alone: `if v, ok := m.Load(k); ok { return v }
+// v, _ := m.LoadOrStore(k, compute(k))`. Its content is a function of the key.
+func isPureMemo(p *Prog, g *ssa.Global) bool {
+	if !strings.HasSuffix(g.Type().String(), "sync.Map") {
+		return false
+	}
+	var compute *ssa.Function
+	ok := true
+	n := 0
+	unwrap := func(v ssa.Value) ssa.Value {
+		switch x := v.(type) {
+		case *ssa.MakeInterface:
+			return x.X
+		case *ssa.ChangeInterface:
+			return x.X
+		}
+		return v
+	}
+	for _, f := range p.Funcs {
+		if f.Blocks == nil {
+			continue
+		}
+		eachInstr(f, func(i ssa.Instruction) {
+			uses := false
+			for _, op := range i.Operands(nil) {
+				if op != nil && *op == ssa.Value(g) {
+					uses = true
+				}
+			}
+			if !uses {
+				return
+			}
+			n++
+			ci, isCall := i.(ssa.CallInstruction)
+			if !isCall || len(ci.Common().Args) < 2 || ci.Common().Args[0] != ssa.Value(g) {
+				ok = false
+				return
+			}
+			key := resolveLocal(unwrap(ci.Common().Args[1]))
+			switch calleeName(ci.Common()) {
+			case "(*sync.Map).Load":
+			case "(*sync.Map).LoadOrStore", "(*sync.Map).Store":
+				// the value filed under a key is one fixed module function applied to that key alone
+				cl, isC := resolveLocal(unwrap(ci.Common().Args[2])).(*ssa.Call)
+				if !isC {
+					ok = false
+					return
+				}
+				cal := staticCallee(cl.Common())
+				if cal == nil || !strings.HasPrefix(pkgPathOf(cal), Mod) || len(cl.Call.Args) != 1 || resolveLocal(cl.Call.Args[0]) != key {
+					ok = false
+					return
+				}
+				if compute != nil && compute != cal {
+					ok = false
+				}
+				compute = cal
+			default:
+				ok = false
+			}
+		})
+	}
+	return ok && n > 0
+}
